@@ -99,27 +99,29 @@ def enum_sweep(ctx):
     for start in range(0, 1 << 24, blk * stride):
         idx += 1
         if ctx.mine(idx):
-            yield {"start": start, "count": blk, "ctx_p": ctx.rng("sw", start).getrandbits(83)}
+            yield {"start": start, "count": blk, "ctx_p": ctx.rng("sw", start).getrandbits(83), "all_formats": ctx.tier == "quick"}
 
 
 def chk_sweep(case, note):
     p = case["ctx_p"]
+    full = case.get("all_formats", True)
     for addr in range(case["start"], case["start"] + case["count"]):
-        m4 = build(addr, 4, 56, p, "U")
-        m17 = build(addr, 17, 112, p, "L")
-        m20 = build(addr, 20, 112, p, "M")
         exp = "%06X" % addr
-        for m in (m4, m17, m20):
+        if full:
+            ms = (build(addr, 4, 56, p, "U"), build(addr, 17, 112, p, "L"), build(addr, 20, 112, p, "M"))
+        else:  # complete sweep of the address space: one format per address, rotating
+            ms = (build(addr, (4, 17, 20)[addr % 3], (56, 112, 112)[addr % 3], p, "ULM"[addr % 3]),)
+        for m in ms:
             r = pms.icao(m)
             if not isinstance(r, str) or r.upper() != exp:
                 return "icao(%s) -> %r, transponder address %s" % (m, r, exp)
-    note.evals = case["count"] * 3
+    note.evals = case["count"] * (3 if full else 1)
     note.nt(True)
     return None
 
 
 LEGS = [
-    Leg("exact", chk_exact, strategy=s_exact, quick=30000, thorough=2000000, doc="every DF x both lengths x letter case"),
-    Leg("canonical", chk_canon, strategy=s_canon, quick=16000, thorough=1000000, doc="same address, two formats/cases -> same string"),
+    Leg("exact", chk_exact, strategy=s_exact, quick=30000, thorough=1000000, doc="every DF x both lengths x letter case"),
+    Leg("canonical", chk_canon, strategy=s_canon, quick=16000, thorough=500000, doc="same address, two formats/cases -> same string"),
     Leg("address_sweep", chk_sweep, enum=enum_sweep, exhaustive=False, doc="address sweep on DF4/DF17/DF20 (stride 251 quick, all 2^24 thorough)"),
 ]
